@@ -230,7 +230,15 @@ def r5_sender(chk, fx):
                  holds=ok, key="C02/R5 open_db-ephemeral")
     # load uses Merge
     lc = [t for n, t in fx.thir.items() if "netconf::Open>::load_config::" in n and "closure" in n]
-    txt = " ".join(X.ntext(T.user_body(t)) for t in lc)
-    chk.instance("C02/R5", "loads use Config::new(update, Xml, Merge)", AGENT + "::netconf::Client::load_config", None,
-                 holds="Config::new(update,load_configuration::Xml,load_configuration::Merge)" in txt or "Config::new(update,Xml,Merge)" in txt,
-                 key="C02/R5 load-action-merge", detail=txt[:200])
+    cfg = []
+    for t in lc:
+        for c in T.calls(T.norm(t["body"])):
+            if T.short(c["fn"], 2) == "Config::new" and "load_configuration" in c["fn"]:
+                cfg.append(c)
+    ok = bool(cfg)
+    for c in cfg:
+        a = [T.expr_str(T.peel(x)).split("::")[-1] for x in c["args"]]
+        g = " ".join(c.get("gargs", []))
+        ok = ok and len(a) == 3 and a[1] == "Xml" and a[2] == "Merge" and "load_configuration::Xml" in g and "load_configuration::Merge" in g
+    chk.instance("C02/R5", "loads use Config::new(<the update>, Xml, Merge) (%d construction sites)" % len(cfg), AGENT + "::netconf::Client::load_config", None,
+                 holds=ok, key="C02/R5 load-action-merge")
